@@ -29,6 +29,7 @@ ASSUMPTIONS = [
     "stored codeword = the word the port wrote to port_to; flips are XORed into the stub memory after the write data was taken and before the read command",
     "exact counter increments with an always-accepting master, >= 1 under read stalls (the flags are level signals while the word waits)",
     "only full-width writes are data-checked (documented limitation: byte enable granularity of the DRAM data width)",
+    "runs with several reads in flight and read stalls use a memory side that honours rdata.ready (the crossbar itself cannot be stalled)",
 ]
 REAL = ["litedram.frontend.ecc.LiteDRAMNativePortECC / ECCW / ECCR", "litex.soc.cores.ecc ECCEncoder/ECCDecoder"]
 STUB = ["native master", "NativeMemSlave with bit-flip injection"]
@@ -91,7 +92,7 @@ def run(scn):
     viol = Violations(sim)
     m = scn["mem"]
     mem = FlipMem(sim, pt, cmd_ready=m.get("cmd_ready"), max_out=m.get("max_out", 8), wl1=m.get("wl1", 1), rl1=m.get("rl1", 3),
-                  extra=m.get("extra"), viol=None)
+                  extra=m.get("extra"), viol=None, honour_rready=scn.get("pipeline", 1) > 1)
     ix = sim.index
     I = {n_: ix(s_) for n_, s_ in (("sec", dut.sec_errors.status), ("ded", dut.ded_errors.status), ("wee", dut.we_errors.status),
                                    ("secd", dut.sec_detected), ("dedd", dut.ded_detected))}
@@ -101,7 +102,7 @@ def run(scn):
     stalls = bool(scn.get("rready"))
     S = sim.S
     stats = {"events": 0, "clean_reads": 0, "single_flips": 0, "parity_bit_flips": 0, "padding_flips": 0, "double_flips": 0, "multi_lane": 0,
-             "full_writes": 0, "partial_writes": 0, "read_stall_events": 0}
+             "full_writes": 0, "partial_writes": 0, "read_stall_events": 0, "batch_reads": 0}
     # ---- op list
     ops = []
     cur = None
@@ -118,7 +119,12 @@ def run(scn):
         for b_ in ev.get("flips", []):
             x ^= 1 << b_
         mem.masks.append(x)
-        ops.append({"id": 0, "we": 0, "addr": addr, "delay": 4, "sync": 1, "ev": ei})
+        if ev.get("batch"):
+            # pipelined reads under read back-pressure: only totals are checked for these
+            ops.append({"id": 0, "we": 0, "addr": addr, "delay": 0, "ev": ei, "batch": 1,
+                        "sync": 1 if not (ops and ops[-1].get("batch")) else 0})
+        else:
+            ops.append({"id": 0, "we": 0, "addr": addr, "delay": 4, "sync": 1, "ev": ei})
     snaps = []      # (op, sec, ded, wee, secd, dedd) sampled when each command is accepted (previous op fully retired)
     rdata = []
 
@@ -127,7 +133,7 @@ def run(scn):
 
     def on_rdata(dta):
         rdata.append((dta, S[I["secd"]], S[I["dedd"]]))
-    mas = NativeMaster(sim, pf, ops, on_rdata=on_rdata, rready=scn.get("rready"), max_reads=1)
+    mas = NativeMaster(sim, pf, ops, on_rdata=on_rdata, rready=scn.get("rready"), max_reads=scn.get("pipeline", 1))
     mas.on_offer = on_cmd      # counters are sampled when an op is first offered: everything before it has retired (sync ops)
     # one access at a time: a write is retired before the next command (the ECC port forwards commands combinationally)
     sim.add_agent("sys", mas)
@@ -152,6 +158,7 @@ def run(scn):
     else:
         snaps.append(final)
         ri = 0
+        batch = {"sec": 0, "ded": 0, "n": 0}
         for j in range(len(snaps) - 1):
             op, s0, d0, w0 = snaps[j]
             _, s1, d1, w1 = snaps[j + 1]
@@ -174,6 +181,23 @@ def run(scn):
             ev = events[op["ev"]]
             got, secd, dedd = rdata[ri]
             ri += 1
+            if op.get("batch"):
+                # totals over the whole batch (first batch op is a sync op: counters sampled at its offer are exact)
+                if "b0" not in batch:
+                    batch["b0"] = (s0, d0)
+                fl = ev.get("flips", [])
+                lanes = {}
+                for b_ in fl:
+                    lanes.setdefault(b_ // lane_w, []).append(b_ % lane_w)
+                if any(len(p_) == 1 and p_[0] != 0 and p_[0] < cw for p_ in lanes.values()):
+                    batch["sec"] += 1
+                if any(len(p_) == 2 for p_ in lanes.values()):
+                    batch["ded"] += 1
+                elif got != word_of(ev["wid"], nbf):
+                    viol.add("data_not_corrected", "pipelined read of word %d flips %s returned 0x%x" % (ev["wid"], fl, got))
+                batch["n"] += 1
+                stats["batch_reads"] += 1
+                continue
             wid = ev["wid"]
             data = word_of(wid, nbf)
             flips = ev.get("flips", [])
@@ -229,6 +253,12 @@ def run(scn):
                     viol.add("sec_count", "%s: corrected-error counter moved by %d for one read" % (what, ds))
                 if exp_ded and dd != 1:
                     viol.add("ded_count", "%s: uncorrectable-error counter moved by %d for one read" % (what, dd))
+        if batch["n"]:
+            ds, dd = final[1] - batch["b0"][0], final[2] - batch["b0"][1]
+            if ds < batch["sec"]:
+                viol.add("single_error_not_counted", "%d pipelined reads with a correctable flip under read back-pressure, corrected-error counter moved by %d" % (batch["sec"], ds))
+            if dd < batch["ded"]:
+                viol.add("double_error_not_flagged", "%d pipelined reads with a double flip under read back-pressure, uncorrectable-error counter moved by %d" % (batch["ded"], dd))
         if (final[1] > 0) != bool(S[I["secd"]]):
             viol.add("sec_flag", "sticky sec_detected flag is %d with %d corrected errors counted" % (S[I["secd"]], final[1]))
         if (final[2] > 0) != bool(S[I["dedd"]]):
@@ -286,8 +316,19 @@ def gen(rng, tier, index):
                 f += [l2 * lane_w + p for p in rng.sample(range(cw), rng.choice([1, 2]))]
                 events.append({"wid": wid, "flips": f})
         wid += 1
+    # pipelined reads of the last word with flips here and there (totals checked; meaningful with read stalls)
+    for _ in range(40):
+        r = rng.random()
+        ln = rng.randrange(bc)
+        if r < 0.5:
+            f = []
+        elif r < 0.8:
+            f = [ln * lane_w + rng.randrange(1, cw)]
+        else:
+            f = [ln * lane_w + p_ for p_ in rng.sample(range(cw), 2)]
+        events.append({"wid": wid - 1, "flips": f, "batch": 1})
     wl1 = rng.randint(1, 6)
     mem = {"cmd_ready": gen_pattern(rng, rng.choice(["none", "light"])), "max_out": 8, "wl1": wl1, "rl1": rng.randint(wl1 + 1, 10),
            "extra": [rng.choice([0, 0, 1, 3]) for _ in range(rng.randint(1, 4))]}
     return {"dut": {"k": k, "bc": bc}, "events": events, "mem": mem,
-            "rready": gen_pattern(rng, "light") if rng.random() < 0.3 else []}
+            "rready": gen_pattern(rng, rng.choice(["light", "heavy"])) if rng.random() < 0.5 else [], "pipeline": rng.choice([1, 2, 4])}
